@@ -467,6 +467,8 @@ def check_dm(case, ctx):
     """DM.render is linear in the actuators; render_backprop must be its adjoint for shift / pad / crop / resample geometries (rot = 0)."""
     from prysm.x.dm import DM
     n, Nact, sep, ups, wfe = case['n'], case['Nact'], case['sep'], case['upsample'], case['wfe']
+    while Nact > 2 and (Nact // 2 + 1) * sep + 4 * case['width'] >= n // 2:
+        Nact -= 1          # shrink the lattice until it (and the tails of the influence functions) fit the array
     if (Nact // 2 + 1) * sep + 4 * case['width'] >= n // 2:
         ctx.exclude('actuator lattice does not fit the influence function array')
     yy, xx = np.mgrid[:n, :n]
